@@ -2,6 +2,7 @@
 import multiprocessing as mp
 import random
 
+from vf import engine_p
 from vf import execharness as H
 from vf.props.c04 import compare
 from vf.report import MachineryDefect, Run
@@ -119,5 +120,6 @@ def check(tier, seed):
                                          "bound": "%d executions" % n})
     run.sample({"mutation": MUTATIONS[1][0], "contract": "invoke(x) only after every resolver below the first b has finished"})
     run.assume("callbacks run atomically (one thread); pre-emptive interleavings are outside this family's reach")
-    return run.finish("other", "bounded stand-in: serial-trace contract on the resolver event log + result == reference for every enumerated completion order",
+    engine_p.run(run, 'C09')
+    return run.finish("other", "trace contracts over every syntactic path of the real function (Engine P, unbounded in the inputs, values abstracted) + bounded stand-in: serial-trace contract on the resolver event log + result == reference for every enumerated completion order",
                       checker_cmd="./check C09 --tier %s" % tier)
